@@ -611,6 +611,54 @@ func runStderrCase(c *c10Case) (impl, pred string) {
 	return impl, c10Predicate(c.n, c.in, written, recs)
 }
 
+// runPreHandshakeStderr: the plugin writes 2048 stderr lines (more than any pipe buffer) and only then its handshake
+// line: Start must succeed (the stderr reader runs while Start waits) and every line must be logged.
+func runPreHandshakeStderr() (impl, pred string) {
+	sink := newC10Sink()
+	fr := newFakeRunner()
+	cfg := &plugin.ClientConfig{
+		HandshakeConfig:  plugin.HandshakeConfig{MagicCookieKey: "K", MagicCookieValue: "V"},
+		VersionedPlugins: map[int]plugin.PluginSet{1: {}},
+		StartTimeout:     c10Watchdog,
+		Logger:           &c10Logger{s: sink},
+		Stderr:           io.Discard,
+		SkipHostEnv:      true,
+		RunnerFunc: func(l hclog.Logger, cmd *exec.Cmd, tmpDir string) (runner.Runner, error) {
+			return fr, nil
+		},
+	}
+	client := plugin.NewClient(cfg)
+	const lines = 2048
+	go func() {
+		for i := 0; i < lines; i++ {
+			if _, err := fr.stderrW.Write([]byte(fmt.Sprintf("[DEBUG] starting up %06d %s\n", i, strings.Repeat("y", 40)))); err != nil {
+				return
+			}
+		}
+		fr.stdoutW.Write([]byte(c10Handshake))
+	}()
+	t0 := time.Now()
+	var serr error
+	_, hung, pp := withTimeout(c10Watchdog+3*time.Second, func() error { _, serr = client.Start(); return nil })
+	el := time.Since(t0)
+	c10Finish(client, fr)
+	sink.mu.Lock()
+	n := len(sink.recs)
+	sink.mu.Unlock()
+	impl = fmt.Sprintf("start=%s recs=%d/%d", map[bool]string{true: "ok", false: "err"}[serr == nil && !hung && pp == nil], n, lines)
+	switch {
+	case hung || pp != nil:
+		return impl, "FAIL:start-hung-with-stderr-before-handshake"
+	case serr != nil:
+		return impl, "FAIL:stderr-before-handshake-stalls-the-plugin-until-start-timeout"
+	case el > c10Watchdog-time.Second:
+		return impl, "FAIL:start-slow-with-stderr-before-handshake"
+	case n < lines:
+		return impl, "FAIL:stderr-lines-before-handshake-not-logged"
+	}
+	return impl, "ok"
+}
+
 // failingWriter fails per mode: always | once (the first Write only) | short (reports a short write without error)
 type failingWriter struct {
 	mode string
@@ -1116,6 +1164,11 @@ func hostC10(o *out, replay string) {
 	for _, mode := range []string{"always", "once", "short"} {
 		impl, pred := runSinkFailCase(mode)
 		o.emit("!C10.sinkfail mode="+mode, impl, pred)
+	}
+	// stderr output BEFORE the handshake line: the host must already be consuming it while Start waits for the line
+	{
+		impl, pred := runPreHandshakeStderr()
+		o.emit("!C10.prehandshake lines=2048", impl, pred)
 	}
 	o.note("C10 input classes: %s", fmtCounts(cls))
 	o.note("C10 outcomes: %s", fmtCounts(outc))
